@@ -8,7 +8,7 @@ for pid in sys.argv[1:]:
         if not os.path.exists(os.path.join(out, "meta%s.json" % k)):
             print(pid, k, "no meta"); continue
         v = json.loads(subprocess.run(["python3", "/verif/tools/validate_mutant.py", pid, k], stdout=subprocess.PIPE, text=True).stdout)
-        dst = "/verif/seeded/%s-%s" % (pid, k)
+        dst = "/verif/seeded/%s-%s%s" % (pid, os.environ.get("MUT_ROUND", ""), k)
         os.makedirs(dst, exist_ok=True)
         shutil.copy(os.path.join(out, "patch%s.diff" % k), os.path.join(dst, "patch.diff"))
         for f in glob.glob(os.path.join(out, "demo%s.*" % k)):
